@@ -750,7 +750,58 @@ DIRECTED_ENTRY = [
 ]
 
 
+# ---- the module options themselves ---------------------------------------------------------------------------
+OPTION_VALUES = {'lsb0': [True, False, 1, 0, 'yes', '', None, 2.5, [], [0]],
+                 'bytealigned': [True, False, 1, 0, 'yes', '', None],
+                 'no_color': [True, False, 1, 0, 'x', None],
+                 'mxfp_overflow': ['saturate', 'overflow', 'Saturate', 'clip', '', None, 0, True, 'saturate ', ['saturate'], b'overflow']}
+
+
+def judge_option(ctx, case):
+    name, spec = case['option'], case['value']
+    val = spec[1] if spec[0] != 'none' else None
+    if spec[0] == 'bytes':
+        val = val.encode()
+    start = case['start']
+    with util.options(lsb0=start[0], bytealigned=start[1], mxfp_overflow=start[2], no_color=start[3]):
+        before = util.get_options()
+        kind, r = call(lambda: setattr(bitstring.options, name, val))
+        ctx.op('options.' + name, 'ok' if kind == 'ok' else type(r).__name__)
+        now = util.get_options()
+        valid = now[2] in ('saturate', 'overflow')       # the switches are used for their truth value only: any object is a valid setting
+        if kind == 'exc':
+            if isinstance(r, INTERNAL) and not isinstance(r, (ValueError, TypeError)):
+                ctx.mismatch(f'C20|undocumented-exc:{type(r).__name__}@options.{name}', case, f'{r!s:.100}')
+            elif now != before:
+                ctx.mismatch(f'C20|options.{name}|options-changed-by-rejected-assignment', case, f'{before} -> {now}')
+            else:
+                ctx.ok(('option', name, 'rejected'), True)
+        elif not valid:
+            ctx.mismatch(f'C20|options.{name}|invalid-value-stored', case, f'{val!r} accepted: options now {now}')
+        elif [x for i, x in enumerate(now) if i != ['lsb0', 'bytealigned', 'mxfp_overflow', 'no_color'].index(name)] != \
+                [x for i, x in enumerate(before) if i != ['lsb0', 'bytealigned', 'mxfp_overflow', 'no_color'].index(name)]:
+            ctx.mismatch(f'C20|options.{name}|another-option-changed', case, f'{before} -> {now}')
+        else:
+            # the library still works under what was stored
+            k2, r2 = call(lambda: (Bits(e4m3mxfp=1000.0).uint, Bits('0b00101')[1], list(Bits('0x0101').findall('0b1'))))
+            if k2 != 'ok':
+                ctx.mismatch(f'C20|options.{name}|library-unusable-after-assignment', case, f'{val!r}: {r2!s:.100}')
+            else:
+                ctx.ok(('option', name, 'accepted', repr(val)[:12]), True)
+
+
+def option_cases(ctx):
+    for name, vals in OPTION_VALUES.items():
+        for v in vals:
+            spec = ['none'] if v is None else ['bytes', v.decode()] if isinstance(v, bytes) else ['val', v]
+            for start in ([False, False, 'saturate', False], [True, True, 'overflow', True]):
+                yield {'option': name, 'value': spec, 'start': start}
+
+
 def run(ctx):
+    if ctx.shard == 0:
+        for c in option_cases(ctx):
+            ctx.run_case(judge_option, c)
     if not ctx.quick and ctx.shard == ctx.nshards - 1:
         # extra workload: the repository's own tests as a generator of realistic API events under the sentinels
         from rv.suite_workload import run_suite_under_sentinels
@@ -786,7 +837,9 @@ REQUIRED_OPS = required_ops()
 
 
 def replay(ctx, case):
-    if 'entry' in case:
+    if 'option' in case:
+        ctx.run_case(judge_option, case)
+    elif 'entry' in case:
         ctx.run_case(judge_entry, case)
     else:
         ctx.run_case(judge, case)
